@@ -197,6 +197,12 @@ Theorem C05_propose_never_panics : forall c e d, o_panic (propose c e d) = false
 Proof. exact propose_no_panic. Qed.
 Print Assumptions C05_propose_never_panics.
 
+(* 10b. Propose returns no later than the deadline of the context it was given (and when every relay
+   asked has given up, as soon as the last one has). *)
+Theorem C05_returns_by_deadline : forall c e d, o_ret (propose c e d) <= e_deadline e.
+Proof. exact returns_by_deadline. Qed.
+Print Assumptions C05_returns_by_deadline.
+
 (* ------------------------------------------------------------------------------------------- *)
 (* The correspondence check (Check/C05.v) *)
 
@@ -212,17 +218,13 @@ Print Assumptions C05_model_satisfies_P_b.
 
 (* 12. On a case where no two relay goroutines act at one instant, [agree] is true exactly when
    everything observed (every request of Prepare and of Propose with its arguments, Prepare's
-   result, every relay call with its time and content, the submission with its time) equals what
-   the model does, with one latitude: when relays were asked and nothing is submitted the observed
-   return time may be earlier than the model's (the deadline). *)
+   result, every relay call with its time and content, the submission with its time, the instant
+   Propose returns) equals what the model does. *)
 Theorem C05_agree_decides_equality_with_model :
   forall c,
     tie_free (e_deadline (c_env c)) (case_plans c) = true ->
     (agree c = true <->
-     exists t,
-       run (c_cfg c) (c_env c) (c_duty c) (c_prepare c) = ((c_prep_events c, c_prep_ok c), with_ret (c_obs c) t)
-       /\ o_ret (c_obs c) <= t
-       /\ (ret_free (with_ret (c_obs c) t) = false -> t = o_ret (c_obs c))).
+     run (c_cfg c) (c_env c) (c_duty c) (c_prepare c) = ((c_prep_events c, c_prep_ok c), c_obs c)).
 Proof. exact agree_sound. Qed.
 Print Assumptions C05_agree_decides_equality_with_model.
 
@@ -315,12 +317,13 @@ Example C05_example_blinded :
   /\ o_ret r = 700.
 Proof. vm_compute. repeat split; reflexivity. Qed.
 
-(* every relay fails: nine calls, nothing submitted, Propose returns when the context is done *)
+(* every relay fails: four calls, nothing submitted, Propose returns when the last relay goroutine
+   has given up (relay 0: third failure at 1400 ms, plus the 250 ms it sleeps before finding no try left) *)
 Example C05_example_all_relays_fail :
   let rs := [ {| r_can := true; r_script := [(300, UErr); (400, UErr); (200, UErr)] |};
               {| r_can := true; r_script := [(100, U400)] |} ] in
   let r := snd (run ex_cfg (ex_env ex_blinded (AOk [] [0%nat; 1%nat]) GNone rs) ex_duty true) in
-  map (@length _) (o_unblind r) = [3%nat; 1%nat] /\ o_submit r = None /\ o_ret r = 4000.
+  map (@length _) (o_unblind r) = [3%nat; 1%nat] /\ o_submit r = None /\ o_ret r = 1650.
 Proof. vm_compute. repeat split; reflexivity. Qed.
 
 (* a block for slot 101 on a duty for slot 100: asked for, then nothing *)
